@@ -34,7 +34,10 @@ RULE = (
     "flattening distance for splines that are only approximated), fast >= precise. O2: exact self-consistency of "
     "extents/multi_flat/multi_recursive and of every cache mode (none, handle keys, uuid keys; cold, warm, subsets; HATCH "
     "with several paths), one cache with both `fast` values. O3: cubic_bezier_bbox/quadratic_bezier_bbox/precise_bbox/"
-    "path.bbox vs 2001-point Bernstein sampling (1e-5 of the span). O4: the set-theoretic reading of union/intersection/"
+    "path.bbox vs 2001-point Bernstein sampling (1e-5 of the span). O5: precise_bbox/path.bbox of random multi-paths (MOVE_TO; sub-paths starting with a line, "
+    "cubic or quadratic curve) vs Bernstein sampling with an independently tracked pen position; O1 also contains HATCH "
+    "entities with 1-4 boundary paths (polyline paths whose first segment is a bulge, edge paths starting with an arc). "
+    "O4: the set-theoretic reading of union/intersection/"
     "has_overlap/has_intersection/contains/inside/extend/grow/all_inside/any_inside on the real classes over the same "
     "grid of boxes, with per-axis interval logic written independently of the model."
 )
@@ -713,7 +716,7 @@ def rc(rng, lo=-10, hi=10):
 
 def gen_entity(rng, blocks, depth_ok=True, kinds=None):
     kinds = kinds or ["LINE", "LINE", "POINT", "CIRCLE", "ARC", "ARC", "ELLIPSE", "LWPOLYLINE", "LWPOLYLINE", "SPLINE", "SPLINE",
-                      "SOLID", "POLYLINE3D", "POLYLINE2D", "3DFACE"] + (["INSERT"] * 5 if blocks and depth_ok else [])
+                      "SOLID", "POLYLINE3D", "POLYLINE2D", "3DFACE", "HATCH", "HATCH"] + (["INSERT"] * 5 if blocks and depth_ok else [])
     k = rng.choice(kinds)
     ext = list(rng.choice(EXTRUSIONS))
     if k == "LINE":
@@ -743,6 +746,30 @@ def gen_entity(rng, blocks, depth_ok=True, kinds=None):
         if pts[0][:2] == pts[-1][:2]:
             pts[-1][1] += 1
         return {"t": k, "points": pts, "closed": rng.random() < 0.4, "elevation": rc(rng, -3, 3), "extrusion": ext}
+    if k == "HATCH":
+        # several boundary paths -> one multi-path (MOVE_TO between the sub-paths); later sub-paths often START with a curve
+        paths = []
+        for i in range(rng.randint(1, 4)):
+            if rng.random() < 0.5:
+                n = rng.randint(3, 5)
+                pts = [[rc(rng), rc(rng), 0] for _ in range(n)]
+                for j in range(n):
+                    if pts[j][:2] == pts[j - 1][:2]:
+                        pts[j][0] += 1.25
+                if i == 0 and rng.random() < 0.6:
+                    pass  # plain polygon first, like most real hatches
+                else:
+                    for j in range(n):
+                        pts[j][2] = rng.choice([0, 0, 0.5, -0.5, 1, -1, 0.25, 1.5])
+                    if rng.random() < 0.7:
+                        pts[0][2] = rng.choice([0.5, -0.5, 1, -1, 0.3, 1.5, -2])  # first segment is an arc
+                paths.append({"k": "poly", "points": pts})
+            else:
+                a0 = rng.choice([-40, 20, 60, 100, 170, 250, 300, rng.uniform(0, 360)])
+                sweep = rng.choice([30, 60, 80, 80, 120, 200, rng.uniform(10, 340)])
+                paths.append({"k": "arc", "center": [rc(rng), rc(rng)], "radius": rng.randint(1, 24) / 4, "a0": a0, "a1": a0 + sweep,
+                              "ccw": rng.random() < 0.7, "lead": rng.random() < 0.3})
+        return {"t": k, "paths": paths, "elevation": rc(rng, -3, 3), "extrusion": ext}
     if k == "SPLINE":
         deg = rng.choice([2, 3, 3, 3, 4])
         n = rng.randint(deg + 1, deg + 5)
@@ -805,6 +832,24 @@ def build_entity(layout, e):
         if e["weights"]:
             return layout.add_rational_spline(e["control_points"], e["weights"], degree=e["degree"])
         return layout.add_open_spline(e["control_points"], degree=e["degree"])
+    if t == "HATCH":
+        h = layout.add_hatch(dxfattribs={"elevation": (0, 0, e["elevation"]), "extrusion": e["extrusion"]})
+        for p in e["paths"]:
+            if p["k"] == "poly":
+                h.paths.add_polyline_path([tuple(v) for v in p["points"]], is_closed=True)
+            else:
+                cx, cy = p["center"]
+                r = p["radius"]
+                at = lambda a: (cx + r * math.cos(math.radians(a)), cy + r * math.sin(math.radians(a)))
+                ep = h.paths.add_edge_path()
+                # the arc edge is always stored counter-clockwise a0 -> a1; `ccw` only tells the direction of travel
+                chord = (at(p["a1"]), at(p["a0"])) if p["ccw"] else (at(p["a0"]), at(p["a1"]))
+                if p["lead"]:
+                    ep.add_line(*chord)
+                ep.add_arc((cx, cy), radius=r, start_angle=p["a0"], end_angle=p["a1"], ccw=p["ccw"])
+                if not p["lead"]:
+                    ep.add_line(*chord)
+        return h
     if t == "SOLID":
         return layout.add_solid([(x, y, e["elevation"]) for x, y in e["points"]], dxfattribs={"extrusion": e["extrusion"]})
     if t == "3DFACE":
@@ -895,6 +940,18 @@ def sample_entity(e, blocks, density, entity=None):
         c = e["center"]
         pts = np.stack([c[0] + mx * np.cos(a) + rx * np.sin(a), c[1] + my * np.cos(a) + ry * np.sin(a), np.full_like(a, c[2])], axis=1)
         return ocs_to_wcs(pts, e["extrusion"])
+    if t == "HATCH":
+        parts = []
+        for p in e["paths"]:
+            if p["k"] == "poly":
+                parts.append(sample_entity({"t": "LWPOLYLINE", "points": p["points"], "closed": True, "elevation": e["elevation"],
+                                            "extrusion": e["extrusion"]}, blocks, density))
+            else:
+                a = np.radians(np.linspace(p["a0"], p["a1"], 4 * density + 1))
+                cx, cy = p["center"]
+                pts = np.stack([cx + p["radius"] * np.cos(a), cy + p["radius"] * np.sin(a), np.full_like(a, e["elevation"])], axis=1)
+                parts.append(ocs_to_wcs(pts, e["extrusion"]))
+        return np.concatenate(parts)
     if t in ("LWPOLYLINE", "POLYLINE2D"):
         P = e["points"]
         segs = list(zip(P, P[1:])) + ([(P[-1], P[0])] if e["closed"] else [])
@@ -1242,14 +1299,10 @@ def oracle_docs(ctx):
             for what, detail in bad:
                 k = "other"
                 if what in ("contain", "tight", "contain-fast", "nodata"):
-                    for c in ("nested-insert-shear", "nested-minsert-scaled", "spline-approx"):
-                        if c in cls:
-                            k = c
-                            break
+                    if "spline-approx" in cls:  # the only remaining known class; the INSERT classes are labels since the fixes
+                        k = "spline-approx"
                     if k == "spline-approx" and max(rout, rslack) > 0.1:  # beyond 10 % of the size it is something else
                         k = "other"
-                elif what == "fast-smaller" and "nested-insert-shear" in cls:
-                    k = "other"  # self-consistency must hold even for wrongly placed geometry
                 ctx.fail(f"geom/{k}/{what}/{e['t']}/{d}.{i}", f"{e['t']} (doc {d}, entity {i}, classes {sorted(cls)}): {detail}",
                          {"op": "entity", "recipe": recipe, "index": i})
         fast = rng.random() < 0.5
@@ -1468,10 +1521,99 @@ def oracle_algebra(ctx):
                 ctx.fail(f"algebra/{dim}d/extents/empty", f"{cls.__name__}([]) has data", {"op": "pts", "dim": dim, "a": sa, "pts": []})
 
 
+def _multipath(cmds):
+    from ezdxf import path as ezpath
+    from ezdxf.math import Vec3
+
+    p = ezpath.Path(Vec3(cmds[0][1]))
+    for c in cmds[1:]:
+        if c[0] == "M":
+            p.move_to(Vec3(c[1]))
+        elif c[0] == "L":
+            p.line_to(Vec3(c[1]))
+        elif c[0] == "C4":
+            p.curve4_to(Vec3(c[3]), Vec3(c[1]), Vec3(c[2]))
+        else:
+            p.curve3_to(Vec3(c[2]), Vec3(c[1]))
+    return p
+
+
+def _multipath_hull(cmds):
+    """dense Bernstein sampling of every segment, pen position tracked here (independent of precise_bbox)"""
+    import numpy as np
+
+    ts = np.linspace(0, 1, 1001)[:, None]
+    pen = np.array(cmds[0][1], dtype=float)
+    pts = [pen[None, :]]
+    for c in cmds[1:]:
+        A = [np.array(q, dtype=float) for q in c[1:]]
+        if c[0] == "C4":
+            pts.append((1 - ts) ** 3 * pen + 3 * (1 - ts) ** 2 * ts * A[0] + 3 * (1 - ts) * ts ** 2 * A[1] + ts ** 3 * A[2])
+        elif c[0] == "C3":
+            pts.append((1 - ts) ** 2 * pen + 2 * (1 - ts) * ts * A[0] + ts ** 2 * A[1])
+        else:  # M and L: the end point (a MOVE_TO target is the start of the next sub-path)
+            pts.append(A[-1][None, :])
+        pen = A[-1]
+    allp = np.concatenate(pts)
+    return allp.min(0), allp.max(0)
+
+
+def check_multipath(cmds):
+    import numpy as np
+    from ezdxf import path as ezpath
+
+    lo, hi = _multipath_hull(cmds)
+    span = max(1e-9, float((hi - lo).max()))
+    tol = 1e-5 * span + 1e-9 * max(1.0, float(np.abs(np.concatenate([lo, hi])).max()))
+    p = _multipath(cmds)
+    bad = []
+    for name, b in (("precise_bbox", ezpath.precise_bbox(p)), ("path.bbox(fast=False)", ezpath.bbox([p], fast=False))):
+        out = max(float((np.array(b.extmin) - lo).max()), float((hi - np.array(b.extmax)).max()))
+        slack = max(float((lo - np.array(b.extmin)).max()), float((np.array(b.extmax) - hi).max()))
+        if out > tol or slack > tol:
+            bad.append(f"{name}: path outside by {out:.3g}, slack {slack:.3g} (tol {tol:.3g})")
+    fb = ezpath.bbox([p], fast=True)
+    if max(float((np.array(fb.extmin) - lo).max()), float((hi - np.array(fb.extmax)).max())) > tol:
+        bad.append("fast: control box does not contain the path")
+    if p.has_sub_paths:
+        ub = ezpath.bbox(list(p.sub_paths()), fast=False)
+        pb = ezpath.precise_bbox(p)
+        if max(abs(a - b) for a, b in zip(tuple(ub.extmin) + tuple(ub.extmax), tuple(pb.extmin) + tuple(pb.extmax))) > tol:
+            bad.append(f"subpaths: box of the multi-path {pb} differs from the box of its sub-paths {ub}")
+    return bad
+
+
+def oracle_multipath(ctx):
+    """precise_bbox / path.bbox of multi-paths (MOVE_TO): sub-paths starting with a line, a cubic or a quadratic curve"""
+    rng = ctx.rng("multipath")
+    S = "O5 multi-path bbox"
+
+    def pt(o):
+        if rng.random() < 0.7:
+            return [o + rng.randint(-40, 40) / 4 for _ in range(3)]
+        return [o + rng.uniform(-10, 10), o + rng.uniform(-10, 10), 0.0]
+
+    for n in range(ctx.n(1500, 15000)):
+        cmds = [("S", pt(0.0))]
+        for sub in range(rng.randint(1, 4)):
+            off = rng.choice([0.0, 0.0, 30.0, -50.0])
+            if sub:
+                cmds.append(("M", pt(off)))
+            for k in range(rng.randint(1, 3)):
+                kind = rng.choice(["C4", "C4", "C3", "L"]) if k == 0 else rng.choice(["L", "L", "C4", "C3"])
+                cmds.append({"L": ("L", pt(off)), "C4": ("C4", pt(off), pt(off), pt(off)), "C3": ("C3", pt(off), pt(off))}[kind])
+        nsub = 1 + len([c for c in cmds if c[0] == "M"])
+        ctx.count(S, ("m", n), nsub > 1)
+        ctx.hist(S, "sub-paths=%d" % nsub)
+        for msg in check_multipath(cmds):
+            ctx.fail(f"multipath/{msg.split(':')[0]}/{n}", f"path {cmds}: {msg}", {"op": "multipath", "cmds": [list(c) for c in cmds]})
+
+
 def oracle(ctx):
     oracle_algebra(ctx)
     oracle_docs(ctx)
     oracle_bezier(ctx)
+    oracle_multipath(ctx)
 
 
 class _ReplayCtx:
@@ -1563,6 +1705,10 @@ def replay(ctx, rep):
                 ok, detail = check_fast_mix(ents)
                 if not ok:
                     bad.append(f"{f['key']}: {detail}")
+            elif r["op"] == "multipath":
+                b = check_multipath([tuple(c) for c in r["cmds"]])
+                if b:
+                    bad.append(f"{f['key']}: {b[0]}")
             elif r["op"] == "doc":
                 build_doc(r["recipe"])
             elif r["op"] in ("algebra", "inside", "grow", "pts"):
